@@ -707,7 +707,7 @@ func (v *VResult) checkFailures(c *Case, tr *Trace, rt *RT, i int, out OpOut, fn
 	}
 	switch f0.outcome {
 	case FaultError:
-		want := rt.errOf(f0.fn, f0.exec)
+		want := rt.errValueOf(f0.fn, f0.exec)
 		if out.Panicked {
 			v.add(CRootCause, i, "f%d returned an error but Invoke panicked: %v", f0.fn, out.PanicVal)
 			return
@@ -815,7 +815,7 @@ func (v *VResult) checkCallbacks(c *Case, tr *Trace, rt *RT, i int, fn *MFn) {
 					v.add(CCallback, i, "%v succeeded but its callback received Error=%v", g, cb.CBErr)
 				}
 			case FaultError:
-				want := rt.errOf(ev.Fn, ev.Exec)
+				want := rt.errValueOf(ev.Fn, ev.Exec)
 				// the callback may get the function's error itself (dig does
 				// not wrap a decorator's error) or dig's wrapping of it
 				if cb.CBErr == nil || (cb.CBErr != error(want) && digRootCause(cb.CBErr) != error(want)) {
